@@ -36,6 +36,13 @@ def _hooked():
 
 CONVERTERS.append(_hooked)   # index 2: a subclass using the documented identifier hook (rejects 'y' / 'bad', strips a leading 'X')
 
+def _surrogate():
+    # index 3: a URI prefix with a lone surrogate (what json.loads returns for an emoji cut in half); scalar calls work on it
+    return Converter([Record(prefix="a", uri_prefix="http://x/"), Record(prefix="sur", uri_prefix="http://s/\ud83d/", prefix_synonyms=["s\ud83d"])])
+
+
+CONVERTERS.append(_surrogate)
+
 CELLS = ["http://x/1", "http://y/2", "a:1", "A1:2", "http://q/1", "zz:1", "nodelim", "", "http://x/\t1", 'a:"q"', "http://x/1\n2", "a:1\r2", "\ufeffa:1", "a:q/7", "http://x/C_1", "http://x/z9"]   # the last: under a's prefix, sorting after the nested prefix http://x/C_
 CELLS_SMALL = ["http://x/1", "A1:2", "zz:1", "", 'a:"q"', "a:1\r2", "\ufeffa:1", "a:q/7"]   # the last starts with a byte-order mark
 OTHER = ["k", "has\ttab", 'q"uote', "line\nbreak", "cr\rx", "", "com,ma", " led", "trailed ", " q\"x"]
@@ -120,6 +127,13 @@ def check_file(conv_idx, op, table, column, header, sep, strict, passthrough, am
             v = f(r[column], strict=strict, passthrough=passthrough)
         except Exception as e:  # noqa
             first_fail = (i, type(e))
+            break
+        try:
+            (v or "").encode("utf-8")
+        except UnicodeEncodeError:
+            # a converted cell that no text file can hold (a lone surrogate from the converter's URI prefix): the operation must
+            # fail - and like every failing row it must leave the file as it was
+            first_fail = (i, UnicodeEncodeError)
             break
         new = list(r)
         new[column] = v if v is not None else ""
@@ -289,6 +303,13 @@ def extra_file_cases():
                     for sep in ("\t", ","):
                         for strict, passthrough, ambiguous in FLAGS:
                             yield 0, op, list(table), column, header, sep, strict, passthrough, ambiguous, 7
+    # converted cells that cannot be encoded, at every position among good rows
+    W = ["a:1", "sur:1", "zz:1"]
+    for table in [(c,) for c in W] + list(it.product(W, repeat=2)) + [("a:1", "a:1", "sur:1"), ("a:1", "sur:1", "a:1")]:
+        for header in (True, False):
+            for strict, passthrough, ambiguous in FLAGS:
+                if not strict:
+                    yield 3, "file_expand", list(table), 0, header, "\t", strict, passthrough, ambiguous
     # a subclass with the identifier hook: cells the hook rewrites or rejects
     Z = ["a:X1", "a:bad", "a:y", "A1:Xy", "http://x/X1", "http://x/bad", "a:1"]
     for table in [(c,) for c in Z] + list(it.product(Z[:5], repeat=2)):
